@@ -1,1 +1,305 @@
-"""Rules for C15 (see DESIGN.md section 5)."""
+"""C15 -- purity: deterministic, history-free, thread-safe, idempotent."""
+import ast
+
+from .. import ev, eff, iso, nf, pat, src
+from ..core import rule, ob, explain, Ob
+from ..src import Unknown, Forest
+from .common import C, need, single
+from . import p06, p13
+
+explain('C15', '''Decided (whole-program effect analysis over every function of the package): no function stores into,
+deletes from or calls a mutating method on an object reachable from a module-level name, directly, through local
+aliases or through a callee (the only writer of module state is import-time code of cli); no `global`/`nonlocal`
+rebinding; every API entry point (factories, encode*, QRCode/QRCodeSequence methods, save and all serialisers, data-URI
+helpers, matrix iterators, helper factories) has an empty parameter-mutation summary apart from `self` in constructors,
+so no call modifies its arguments, a symbol passed to a serialiser, or a previously returned symbol; mutators
+(add_*, apply_mask, write_* on a buffer, Segments.add_segment, write_ppm on its colour map) are only ever handed objects
+their caller created; mask candidates are row copies (C06.R2); no function result is memoised; there are no mutable
+default arguments, no class-level mutable attributes, no function returns a module-level mutable object; no source of
+nondeterminism (random, urandom, uuid, id, hash, time, iteration over a set of str/bytes) is reachable from the encoder,
+the iterators or a serialiser except the three documented creation timestamps; capacity/padding use the boosted level so
+that re-encoding with the reported parameters takes the same path. A synthetic positive control (a module with one write
+to a module table, one aliased write, one memoised function) must be flagged on every run. NOT decided: nothing; for
+this property the quantifier over histories and schedules collapses to the absence of shared mutable state.''')
+
+ENTRY = [
+    ('__init__', 'make'), ('__init__', 'make_qr'), ('__init__', 'make_micro'), ('__init__', 'make_sequence'),
+    ('encoder', 'encode'), ('encoder', 'encode_sequence'), ('encoder', '_encode'),
+    ('writers', 'save'), ('writers', 'as_svg_data_uri'), ('writers', 'as_png_data_uri'),
+    ('writers', 'write_eps'), ('writers', 'write_pdf'), ('writers', 'write_txt'),
+    ('writers', 'write_pbm'), ('writers', 'write_pam'), ('writers', 'write_xpm'), ('writers', 'write_xbm'),
+    ('writers', 'write_tex'), ('writers', 'write_terminal'), ('writers', 'write_terminal_compact'),
+    ('writers', 'colorful.decorate.wrapper'),      # what write_svg / write_png / write_ppm denote after decoration
+    ('utils', 'matrix_iter'), ('utils', 'matrix_iter_verbose'), ('utils', 'matrix_to_lines'),
+    ('utils', 'get_symbol_size'), ('utils', 'get_border'), ('utils', 'get_default_border_size'),
+    ('helpers', 'make_wifi_data'), ('helpers', 'make_wifi'), ('helpers', 'make_mecard_data'), ('helpers', 'make_mecard'),
+    ('helpers', 'make_vcard_data'), ('helpers', 'make_vcard'), ('helpers', 'make_geo_data'), ('helpers', 'make_geo'),
+    ('helpers', 'make_make_email_data'), ('helpers', 'make_email'), ('helpers', '_make_epc_qr_data'), ('helpers', 'make_epc_qr'),
+    ('cli', 'main'),
+]
+SELF_BUILDERS = {'__init__', '__new__'}
+
+CONTROL = '''
+import functools
+TABLE = {'a': [1, 2]}
+CACHE = []
+
+def direct(x):
+    TABLE['b'] = x
+
+def aliased(x):
+    row = TABLE['a']
+    row.append(x)
+
+def via_callee(x):
+    helper(CACHE, x)
+
+def helper(lst, x):
+    lst.append(x)
+
+@functools.lru_cache(maxsize=8)
+def memo(x):
+    return bytearray(x)
+
+def default_arg(x, acc=[]):
+    acc.append(x)
+    return acc
+
+def mutates_param(matrix):
+    matrix[0][0] ^= 1
+
+def clean(matrix):
+    m = [r[:] for r in matrix]
+    m[0][0] ^= 1
+    return m
+'''
+
+
+def _control_program():
+    base = Forest({'ctl': CONTROL})
+    base.trees.setdefault('ctl', base.trees['ctl'])
+    return eff.Program(base)
+
+
+@rule('C15', 'R0', 8, 'positive control: a synthetic module with known effects is classified correctly')
+def r0(fx):
+    P = _control_program()
+    f = {q: P.fns[('ctl', q)] for q in ('direct', 'aliased', 'via_callee', 'helper', 'memo', 'default_arg', 'mutates_param', 'clean')}
+    mod = fx.forest.mod('consts')
+    yield ob('control: direct write to a module table is flagged', 'ctl.TABLE' in f['direct'].mut_globals, mod, where='control.direct',
+             got=sorted(f['direct'].mut_globals), want=['ctl.TABLE'])
+    yield ob('control: write through a local alias of a table row is flagged', 'ctl.TABLE' in f['aliased'].mut_globals, mod,
+             where='control.aliased', got=sorted(f['aliased'].mut_globals), want=['ctl.TABLE'])
+    yield ob('control: write through a callee is flagged', 'ctl.CACHE' in f['via_callee'].mut_globals, mod, where='control.via_callee',
+             got=sorted(f['via_callee'].mut_globals), want=['ctl.CACHE'])
+    yield ob('control: parameter mutation summary', set(f['helper'].mut_params) == {'lst'} and set(f['mutates_param'].mut_params) == {'matrix'},
+             mod, where='control.helper', got=(sorted(f['helper'].mut_params), sorted(f['mutates_param'].mut_params)), want=(['lst'], ['matrix']))
+    yield ob('control: mutation of a row copy is not attributed to the parameter', not f['clean'].mut_params and not f['clean'].mut_globals,
+             mod, where='control.clean', got=(sorted(f['clean'].mut_params), sorted(f['clean'].mut_globals)), want=([], []))
+    yield ob('control: memoised function is flagged', _memoised(f['memo'].node) is not None, mod, where='control.memo',
+             got=_memoised(f['memo'].node), want='lru_cache')
+    yield ob('control: mutable default is flagged', bool(_mutable_defaults(f['default_arg'].node)), mod, where='control.default_arg',
+             got=_mutable_defaults(f['default_arg'].node), want=['acc'])
+    yield ob('control: unmemoised function is not flagged', _memoised(f['clean'].node) is None, mod, where='control.clean',
+             got=_memoised(f['clean'].node), want=None)
+
+
+def _memoised(fn):
+    for d in fn.decorator_list:
+        dn = src.call_name(d) if isinstance(d, ast.Call) else src.dotted(d)
+        if dn and dn.split('.')[-1] in ('lru_cache', 'cache', 'cached_property', 'memoize', 'memoized'):
+            return dn
+    return None
+
+
+def _mutable_defaults(fn):
+    out = []
+    a = fn.args
+    pos = a.posonlyargs + a.args
+    for p, d in list(zip(pos[len(pos) - len(a.defaults):], a.defaults)) + [(p, d) for p, d in zip(a.kwonlyargs, a.kw_defaults) if d is not None]:
+        if isinstance(d, (ast.List, ast.Dict, ast.Set, ast.ListComp, ast.DictComp, ast.SetComp)) or \
+                (isinstance(d, ast.Call) and src.call_name(d) in ('list', 'dict', 'set', 'bytearray', 'defaultdict', 'Buffer', 'Segments')):
+            out.append(p.arg)
+    return out
+
+
+@rule('C15', 'R1', 180, 'no function writes module-level state (directly, through aliases or callees); no global/nonlocal rebinding')
+def r1(fx):
+    P = eff.program(fx.forest)
+    n = 0
+    for fi in sorted(P.fns.values(), key=lambda f: f.name):
+        n += 1
+        bad = {g: ents[:2] for g, ents in fi.mut_globals.items()}
+        yield Ob(f'{fi.name}: module-level objects mutated', not bad, fi.name, fi.node.lineno,
+                 '; '.join(f'{g} at line {e[0][0]}: {e[0][1]}' for g, e in bad.items()) or 'none', 'none', True)
+    for m, q, node in fx.forest.functions():
+        for x in src.walk_local(node):
+            if isinstance(x, (ast.Global, ast.Nonlocal)):
+                yield Ob(f'{m}.{q}: {type(x).__name__.lower()} {", ".join(x.names)}', False, f'{m}.{q}', x.lineno,
+                         ast.unparse(x), 'no global / nonlocal rebinding', True)
+    fx.info['C15 functions'] = n
+    fx.info['C15 mutation sites'] = sum(f.sites for f in P.fns.values())
+    fx.info['C15 fixed-point rounds'] = P.rounds
+    # module-level code after import: only cli's table filling loop writes module state
+    for m, tree in fx.forest.trees.items():
+        writers_ = []
+        for st in tree.body:
+            if isinstance(st, (ast.For, ast.While, ast.If, ast.With, ast.Try)):
+                for x in ast.walk(st):
+                    if isinstance(x, (ast.Assign, ast.AugAssign)):
+                        for t in (x.targets if isinstance(x, ast.Assign) else [x.target]):
+                            if isinstance(t, ast.Subscript):
+                                writers_.append(ast.unparse(t.value))
+        want = ['_EXT_TO_KW_MAPPING'] if m == 'cli' else []
+        yield Ob(f'{m}: import-time writers of module tables', sorted(set(writers_)) == want, m, 0, sorted(set(writers_)), want, True)
+
+
+@rule('C15', 'R2', 40, 'API entry points mutate none of their arguments (except self in constructors); a serialiser never mutates the matrix')
+def r2(fx):
+    P = eff.program(fx.forest)
+    for key in ENTRY:
+        fi = P.fns.get(key)
+        need(fi is not None, f'entry point {key[0]}.{key[1]} not found')
+        bad = {p: e[:2] for p, e in fi.mut_params.items()}
+        yield Ob(f'{fi.name}: parameters mutated', not bad, fi.name, fi.node.lineno,
+                 '; '.join(f'{p} at line {e[0][0]}: {e[0][1]}' for p, e in bad.items()) or 'none', 'none', True)
+    for k, fi in sorted(P.fns.items()):
+        if k[1].startswith(('QRCode.', 'QRCodeSequence.')) and k[0] == '__init__':
+            allowed = {'self'} if fi.node.name in SELF_BUILDERS else set()
+            bad = {p: e[:1] for p, e in fi.mut_params.items() if p not in allowed}
+            yield Ob(f'{fi.name}: parameters mutated', not bad, fi.name, fi.node.lineno,
+                     '; '.join(f'{p} at line {e[0][0]}: {e[0][1]}' for p, e in bad.items()) or 'none',
+                     'none' + (' (self allowed in a constructor)' if allowed else ''), True)
+    # every call of a function that mutates a parameter: the argument is owned by the caller (or the caller's own parameter,
+    # in which case the effect shows in the caller's summary, checked above for the entry points)
+    n_sites = 0
+    for fi in sorted(P.fns.values(), key=lambda f: f.name):
+        for call, callees in fi.calls:
+            for g in callees:
+                for p in g.mut_params:
+                    arg = P.arg_for(g, call, p)
+                    if arg is None:
+                        continue
+                    roots = P.root_of(fi, arg, fi._aliases)
+                    n_sites += 1
+                    bad = [r for r in roots if r[0] in ('global', 'unknown')]
+                    yield Ob(f'{fi.name}: {ast.unparse(call.func)}({p}={ast.unparse(arg)[:30]})', not bad, fi.name, call.lineno,
+                             f'argument rooted at {sorted(roots)}', 'fresh object, own parameter or enclosing local', True)
+    fx.info['C15 mutator call sites'] = n_sites
+
+
+@rule('C15', 'R3', 16, 'mask candidates are row copies; the input matrix is untouched; the result is the chosen candidate (C06.R2)')
+def r3(fx):
+    yield from p06.r2(fx)
+
+
+NONDET = {'random', 'urandom', 'uuid1', 'uuid4', 'getrandbits', 'randint', 'choice', 'shuffle', 'id', 'hash', 'getpid',
+          'perf_counter', 'monotonic', 'token_bytes', 'token_hex'}
+TIME_FNS = {'time', 'strftime', 'localtime', 'gmtime', 'timezone', 'now', 'today', 'utcnow'}
+
+
+@rule('C15', 'R4', 100, 'no nondeterminism source reachable from the encoder, iterators or serialisers (time only in the three creation stamps); no order-dependent set iteration')
+def r4(fx):
+    P = eff.program(fx.forest)
+    roots = [k for k in ENTRY if k != ('cli', 'main')] + [k for k in P.fns if k[0] == '__init__' and k[1].startswith('QRCode') and not k[1].endswith('.show')
+                                                             and '.show.' not in k[1]]
+    reach = P.reachable(roots)
+    fx.info['C15 reachable functions'] = len(reach)
+    allowed_time = {('writers', 'write_eps'): 1, ('writers', 'write_pdf'): 3, ('writers', 'write_tex'): 1}
+    for k in sorted(reach):
+        fi = P.fns[k]
+        bad, times = [], []
+        for n in src.walk_local(fi.node):
+            if isinstance(n, ast.Call):
+                d = src.call_name(n) or ''
+                last = d.split('.')[-1]
+                if last in NONDET and (d.split('.')[0] in ('random', 'os', 'uuid', 'secrets', 'time') or '.' not in d):
+                    bad.append(f'{d}() at line {n.lineno}')
+                if d.startswith('time.') or d.startswith('datetime.'):
+                    times.append(f'{d} at line {n.lineno}')
+            elif isinstance(n, ast.Attribute) and src.dotted(n) in ('time.timezone', 'time.altzone'):
+                times.append(f'{src.dotted(n)} at line {n.lineno}')
+            # iteration over a set
+            it = None
+            if isinstance(n, ast.For):
+                it = n.iter
+            elif isinstance(n, ast.comprehension):
+                it = n.iter
+            if it is not None and _is_set_expr(it, fi):
+                par = src.parent(n) if isinstance(n, ast.comprehension) else None
+                consumer = src.parent(par) if par is not None else None
+                order_free = isinstance(par, ast.SetComp) or (isinstance(consumer, ast.Call) and src.call_name(consumer) in
+                                                             ('set', 'frozenset', 'sorted', 'len', 'any', 'all', 'sum', 'min', 'max'))
+                if not order_free:
+                    bad.append(f'iteration over a set: {ast.unparse(it)[:50]} at line {getattr(it, "lineno", 0)}')
+        lim = allowed_time.get(k, 0)
+        if len(times) > lim:
+            bad.append(f'{len(times)} time reads (allowed {lim}): {times}')
+        yield Ob(f'{fi.name}: nondeterminism sources', not bad, fi.name, fi.node.lineno, '; '.join(bad) or 'none', 'none', True)
+    for k, lim in allowed_time.items():
+        fi = P.fns[k]
+        cnt = sum(1 for n in src.walk_local(fi.node, into_nested=False) if (isinstance(n, ast.Call) and (src.call_name(n) or '').startswith('time.'))
+                  or (isinstance(n, ast.Attribute) and src.dotted(n) in ('time.timezone',) and not isinstance(src.parent(n), ast.Attribute)))
+        fx.info[f'time reads in {fi.name}'] = cnt
+
+
+def _is_set_expr(e, fi):
+    if isinstance(e, (ast.Set, ast.SetComp)):
+        return True
+    if isinstance(e, ast.Call) and src.call_name(e) in ('set', 'frozenset'):
+        return True
+    if isinstance(e, ast.Name):
+        for v in getattr(fi, '_aliases', {}).get(e.id, []):
+            if v is not None and not isinstance(v, ast.Name) and _is_set_expr(v, fi):
+                return True
+    return False
+
+
+@rule('C15', 'R5', 180, 'no memoised results, no mutable default arguments, no class-level mutable attributes, no returned module-level mutable object')
+def r5(fx):
+    P = eff.program(fx.forest)
+    for fi in sorted(P.fns.values(), key=lambda f: f.name):
+        probs = []
+        m = _memoised(fi.node)
+        if m:
+            probs.append(f'results cached by @{m} (shared between calls)')
+        md = _mutable_defaults(fi.node)
+        if md:
+            probs.append(f'mutable default argument(s) {md}')
+        for ra in fi.returns_alias:
+            if ra.startswith('global:'):
+                mod, name = ra[7:].split('.', 1)
+                try:
+                    val = ev.const(fx.forest, mod, name.split('.')[0])
+                except Unknown:
+                    continue
+                if isinstance(val, (dict, list, set, bytearray)):
+                    # returning an element of a table is fine when the elements are immutable
+                    elems = list(val.values()) if isinstance(val, dict) else list(val)
+                    whole = any(isinstance(r.value, (ast.Name, ast.Attribute)) and src.dotted(r.value) in (name, f'consts.{name}', f'{mod}.{name}')
+                                for r in src.walk_local(fi.node) if isinstance(r, ast.Return) and r.value is not None)
+                    deep = any(isinstance(x, (dict, list, set, bytearray)) for x in elems)
+                    if whole or (deep and not isinstance(val, dict)):
+                        probs.append(f'returns module-level mutable object {ra[7:]}')
+        yield Ob(f'{fi.name}: shared-state leaks', not probs, fi.name, fi.node.lineno, '; '.join(probs) or 'none', 'none', True)
+    for m, tree in fx.forest.trees.items():
+        for cls in [n for n in ast.walk(tree) if isinstance(n, ast.ClassDef)]:
+            bad = []
+            for st in cls.body:
+                if isinstance(st, ast.Assign) and isinstance(st.value, (ast.List, ast.Dict, ast.Set)) and \
+                        not any(isinstance(t, ast.Name) and t.id == '__slots__' for t in st.targets):
+                    bad.append(ast.unparse(st)[:50])
+            yield Ob(f'{m}.{cls.name}: class-level mutable attributes', not bad, f'{m}.{cls.name}', cls.lineno, bad, [], True)
+
+
+@rule('C15', 'R6', 3, 're-encoding with the reported version/level/mask takes the same path: padding uses the boosted level; one mask applicator')
+def r6(fx):
+    for o in p13.r6(fx):
+        if 'capacity' in o.key:
+            yield o
+    fn = fx.fn('encoder', 'find_and_apply_best_mask')
+    calls = [c for c in src.calls_in(fn, 'apply_mask', into_nested=False)]
+    oka = len(calls) == 2 and all(pat.match(c, 'apply_mask(H_m, H_p, width, height, is_encoding_region)') is not None for c in calls)
+    pats = [ast.unparse(pat.match(c, 'apply_mask(H_m, H_p, width, height, is_encoding_region)')['p']) for c in calls] if oka else []
+    yield ob('requested and automatic path use the same apply_mask with predicates from the same table', oka
+             and sorted(pats) == ['mask_pattern', 'mask_patterns[proposed_mask]'], fn, got=pats, want=['mask_patterns[proposed_mask]', 'mask_pattern'])
